@@ -41,17 +41,18 @@ Definition flags_of (nc isf : bool) (k : rkind) : oflags :=
   | RClobber => fl false true false true true false
   end.
 
-(** [setup_redirect_output_and_error_to]: one open, the same file on 1 and 2.
-    Note: it does not look at the noclobber option. *)
-Definition both_to (w : world) (L : tbl) (path : nat) (app : bool) : (world * tbl) + rerr :=
-  match k_open w path (fl false true app (negb app) true false) with
+(** [setup_redirect_output_and_error_to]: one open, the same file on 1 and 2.  [&>f] consults the
+    noclobber option exactly like [>f]; [&>>f] appends. *)
+Definition both_to (nc : bool) (w : world) (L : tbl) (path : nat) (app : bool) : (world * tbl) + rerr :=
+  match k_open w path (if app then fl false true true false true false
+                       else flags_of nc (is_file w path) RWrite) with
   | (w', inl id) => inl (w', tset (tset L 1 (Some id)) 2 (Some id))
   | (_, inr e) => inr (EOpenFail path e)
   end.
 
 Definition setup_redirect (nc : bool) (P : tbl) (w : world) (L : tbl) (r : redir) : (world * tbl) + rerr :=
   match r with
-  | RBoth path app => both_to w L path app
+  | RBoth path app => both_to nc w L path app
   | RFile n k path =>
       match k_open w path (flags_of nc (is_file w path) k) with
       | (w', inl id) => inl (w', tset L (match n with Some n => n | None => default_fd k end) (Some id))
@@ -59,17 +60,18 @@ Definition setup_redirect (nc : bool) (P : tbl) (w : world) (L : tbl) (r : redir
       end
   | RDup n out src =>
       let fdn := match n with Some n => n | None => default_dup_fd out end in
-      match try_fd L P src with
-      | Some id => inl (w, tset L fdn (Some id))
-      | None => inr (EBadFd src)
-      end
+      if Nat.eqb src fdn then inl (w, L)      (* duplicating a descriptor onto itself does nothing, open or not *)
+      else match try_fd L P src with
+           | Some id => inl (w, tset L fdn (Some id))
+           | None => inr (EBadFd src)
+           end
   | RClose n out =>
       (* the word is "-": [dash], nothing else; [remove_fd] records NotPresent *)
       let fdn := match n with Some n => n | None => default_dup_fd out end in
       inl (w, tset L fdn None)
   | RDupWord n path =>
       let fdn := match n with Some n => n | None => 1 end in
-      if Nat.eqb fdn 1 then both_to w L path false else inr (EInvalidRedir path)
+      if Nat.eqb fdn 1 then both_to nc w L path false else inr (EInvalidRedir path)
   | RHereDoc n body =>
       let '(w', id) := k_pipe_with w body in
       inl (w', tset L (match n with Some n => n | None => 0 end) (Some id))
